@@ -14,9 +14,9 @@ import (
 func init() { register("C04", checkC04) }
 
 type hashAnchors struct {
-	get, del, put     *types.Func
+	get, del, put                      *types.Func
 	listInsert, listDelete, listExpire *types.Func
-	ackPkg            *ssa.Package
+	ackPkg                             *ssa.Package
 }
 
 func (c *Ctx) hashAnchors(ru *report.Rule) *hashAnchors {
@@ -414,6 +414,8 @@ func checkC04(c *Ctx) {
 	}
 
 	c.ruleSweepDrains("C04-R7")
+	c.ruleAppendAliasing("C04-R9", "wasp/expiration")
+	c.ruleDeadlineRounding("C04-R10")
 
 	// R8: slices that are binary-searched stay sorted
 	ru8 := c.R.Rule("C04-R8", "a slice field that is binary-searched with sort.Search is only modified in order-preserving ways: append followed by a sort, or deletion by append(s[:i], s[i+1:]...); a whole element is never overwritten in place (swap-with-last removal breaks the order the search relies on)", "E11 shape rule on writes to sort.Search'ed members", 1)
@@ -659,7 +661,7 @@ func (c *Ctx) ruleSweepDrains(id string) {
 	if h == nil {
 		return
 	}
-	ru7 := c.R.Rule(id, "the expiry sweep tries to resolve every key returned by expiration.List.Expire: inside the loop over that result no iteration can continue without reaching Hash.Delete (a key taken off the timeout list but skipped is never expired nor re-armed)", "E2 dominance over the loop's back edges", 1)
+	ru7 := c.R.Rule(id, "the expiry sweep tries to resolve every key returned by expiration.List.Expire: inside the loop over that result no iteration can continue without reaching Hash.Delete, and the loop is left only through its normal end (a key taken off the timeout list but skipped is never expired nor re-armed)", "E2 dominance over the loop's back edges", 1)
 	for _, f := range c.ackFuncs(h) {
 		for _, ex := range core.CallsTo(f, h.listExpire) {
 			c.R.Fn(c.fname(f))
@@ -685,9 +687,108 @@ func (c *Ctx) ruleSweepDrains(id string) {
 				if !depReaches(del.Args()[0], func(v ssa.Value) bool { return v == ex.Value() }) {
 					bad = "the key removed is not the one returned by the timeout list"
 				}
+				// the sweep is not cut short: the keys after the current one have left the timeout list too
+				for b := range l.Blocks {
+					if _, isRet := b.Instrs[len(b.Instrs)-1].(*ssa.Return); isRet {
+						bad = "the sweep returns from inside its loop (at " + c.P.Pos(lastPos(b)) + "): the keys listed after the current one have already left the timeout list and are never expired, retransmitted or released"
+					}
+					for _, sb := range b.Succs {
+						if !l.Blocks[sb] && b != l.Header {
+							bad = "the sweep loop can be left early (at " + c.P.Pos(lastPos(b)) + "): the keys listed after the current one have already left the timeout list and are never expired, retransmitted or released"
+						}
+					}
+				}
 			}
 			ru7.Check(bad == "", key, c.whereI(del.Instr), "Hash.Delete dominates every back edge of the sweep loop", bad)
 		}
 	}
 
+}
+
+// ruleAppendAliasing implements C04-R9: no insertion by nested appends that reads the tail after it may have been overwritten.
+func (c *Ctx) ruleAppendAliasing(id string, pkgRel string) {
+	ru := c.R.Rule(id, "no element is inserted into a slice by append(append(s[:i], x...), s[i:]...): the inner append writes x over s[i] in place when the backing array has room, and the outer append then copies the overwritten tail — one stored entry is lost and the new one appears twice (the safe form copies the tail first: append(s[:i], append([]T{x}, s[i:]...)...))", "E11 shape rule on nested appends over two re-slicings of one slice (positive control: the package's append calls are counted)", 1)
+	n, bad := 0, ""
+	var at ssa.Instruction
+	sliceOf := func(v ssa.Value) (base string, ok bool) {
+		sl, isSl := core.Strip(v).(*ssa.Slice)
+		if !isSl {
+			return "", false
+		}
+		return core.Term(sl.X), true
+	}
+	for _, f := range c.P.ModFuncs() {
+		if f.Package() == nil || f.Package().Pkg.Path() != c.P.Rel(pkgRel) {
+			continue
+		}
+		for _, cl := range core.CallsIn(f) {
+			if cl.Builtin() != "append" || len(cl.Common.Args) != 2 {
+				continue
+			}
+			n++
+			c.R.Fn(c.fname(f))
+			inner, ok := core.Strip(cl.Common.Args[0]).(*ssa.Call)
+			if !ok || core.CallOf(inner).Builtin() != "append" {
+				continue
+			}
+			headBase, ok1 := sliceOf(inner.Call.Args[0])
+			tailBase, ok2 := sliceOf(cl.Common.Args[1])
+			if ok1 && ok2 && headBase == tailBase {
+				hs := core.Strip(inner.Call.Args[0]).(*ssa.Slice)
+				if hs.High != nil { // s[:i] keeps the capacity of s: the inner append writes into s's own array
+					bad = "an element is inserted by append(append(s[:i], x), s[i:]...) over " + short(headBase, 60) + ": the tail is read after the inner append may have overwritten its first element"
+					at = cl.Instr
+				}
+			}
+		}
+	}
+	if at != nil {
+		ru.Fail("nested appends in "+pkgRel, c.whereI(at), bad)
+	} else {
+		ru.Check(n > 0, "nested appends in "+pkgRel, "-", fmt.Sprintf("%d append call(s), none inserts through an aliased re-slice", n), "no append call found in "+pkgRel+": the rule cannot see its constructs")
+	}
+}
+
+// ruleDeadlineRounding implements C04-R10: one rounding of deadlines to bucket keys.
+func (c *Ctx) ruleDeadlineRounding(id string) {
+	ru := c.R.Rule(id, "every function of the timeout list that derives a bucket key from a deadline uses the same rounding (the same time.Time method with the same unit): an entry filed under one rounding and looked up under another is never found again — its timer outlives the acknowledgement and fires on whatever exchange reuses the identifier", "E10 sibling agreement on the rounding call", 2)
+	type use struct {
+		method string
+		unit   string
+		at     ssa.Instruction
+		fn     *ssa.Function
+	}
+	var uses []use
+	for _, f := range c.P.ModFuncs() {
+		if f.Package() == nil || f.Package().Pkg.Path() != c.P.Rel("wasp/expiration") {
+			continue
+		}
+		for _, cl := range core.CallsIn(f) {
+			if cl.Obj == nil || cl.Obj.Pkg() == nil || cl.Obj.Pkg().Path() != "time" {
+				continue
+			}
+			if cl.Obj.Name() != "Round" && cl.Obj.Name() != "Truncate" {
+				continue
+			}
+			sig, _ := cl.Obj.Type().(*types.Signature)
+			if sig == nil || sig.Recv() == nil || !isNamed(sig.Recv().Type(), "time", "Time") {
+				continue
+			}
+			args := cl.Args()
+			unit := "?"
+			if len(args) > 0 {
+				unit = core.Term(args[len(args)-1])
+			}
+			uses = append(uses, use{cl.Obj.Name(), unit, cl.Instr, f})
+			c.R.Fn(c.fname(f))
+		}
+	}
+	if !ru.Anchor(len(uses) >= 2, "at least two bucket-key computations (time.Time.Round / Truncate) in wasp/expiration") {
+		return
+	}
+	ref := uses[0]
+	for i, u := range uses {
+		key := fmt.Sprintf("deadline rounding #%d in %s", i, c.fname(u.fn))
+		ru.Check(u.method == ref.method && u.unit == ref.unit, key, c.whereI(u.at), u.method+"("+u.unit+")", fmt.Sprintf("this site rounds deadlines with %s(%s) while %s uses %s(%s): entries filed by one are not found by the other", u.method, u.unit, c.fname(ref.fn), ref.method, ref.unit))
+	}
 }
